@@ -252,6 +252,18 @@ pub fn replay(_o: &Opts, parts: &[&str]) -> i32 {
     let op = parts[3];
     let index: u64 = parts[4].parse().unwrap_or(0);
     let mut rep = Report::default();
+    {
+        let (spec, mut c) = make_case(seed, "C13", op, index);
+        let both = run_case_full(&spec, &mut c, &Which::default(), None, 0);
+        println!("{}", case_json(&spec, &both).pretty());
+        let g = both.built.world.lock();
+        for x in 0..2 {
+            println!("projection of subscription {}:", x);
+            for l in projection(&g, x) {
+                println!("  {}", l);
+            }
+        }
+    }
     let found = one_case(&mut rep, seed, op, index, &Which::default(), false);
     for (_, f) in rep.violations.iter() {
         println!("{}", f.replay.pretty());
